@@ -178,10 +178,17 @@ func htmlFamilies() []htmlFamily {
 func runC14(c *run.Ctx) {
 	on := build(everythingOnSpec())
 	ugc := build(specByName("ugc"))
+	// the same with URL parsing switched off again at the end (rewriter, link options and forced attributes then see raw
+	// values), and a minimal policy with a rewriter that never had URL parsing on
+	offSpec := everythingOnSpec()
+	offSpec.Name = "everything-on-urls-unparsed"
+	offSpec.Calls = append(append([]C{}, offSpec.Calls...), opt("RequireParseableURLs", false))
+	off := build(offSpec)
+	rw := build(spec.Spec{Name: "rewriter-only", Base: "new", Calls: []C{attrsOn([]string{"src", "href", "cite"}, "", "img", "a", "q", "iframe"), {Op: "RewriteSrc", Fn: "proxy"}}})
 	// ---- (a) no panic, all entry points --------------------------------------------
 	entry := func(in []byte) {
 		c.States++
-		for _, b := range []*built{&on, &ugc} {
+		for _, b := range []*built{&on, &ugc, &off, &rw} {
 			c.Trace(func() string { return b.S.Name + "\n" + run.Q(string(in)) })
 			var pm string
 			if hooks.Available {
